@@ -90,16 +90,28 @@ func c01Core(c *Ctx, only string) {
 	expiry := e.CallGuard(PassFwd, procT+".validateHopExpiry")
 	mac := e.CallGuard(PassFwd, procT+".verifyCurrentMAC")
 	c.Min("process:success-returns", len(sinks), 3)
-	c.Min("process:calls-validateHopExpiry", expiry.Sites(fn), 2)
-	c.Min("process:calls-verifyCurrentMAC", mac.Sites(fn), 2)
+	// process and the methods it calls on the same processor (a block of process
+	// moved into a helper is still part of it; E1 summarises what a helper establishes)
+	closure := recvClosure(fn)
+	c.Min("process:calls-validateHopExpiry", countCalls(closure, procT+".validateHopExpiry"), 2)
+	c.Min("process:calls-verifyCurrentMAC", countCalls(closure, procT+".verifyCurrentMAC"), 2)
 	e.Require("R1-guard-before-forward", "success-returns", nil, sinks, expiry, mac)
 
-	// R2: after doXover both validations are repeated for the new hop field.
-	xo := e.CallSites(procT + ".doXover")
-	c.Min("process:calls-doXover", len(xo), 1)
-	for _, x := range xo {
-		e.Require("R2-revalidate-after-xover", "after-doXover", x, sinks, expiry, mac)
+	// R2: after doXover both validations are repeated for the new hop field, in
+	// whichever function of that closure the cross-over is done.
+	nXo := 0
+	for _, f := range closure {
+		ef := e
+		if f != fn {
+			ef = NewE1(c, f)
+		}
+		for _, x := range ef.CallSites(procT + ".doXover") {
+			nXo++
+			ef.Require("R2-revalidate-after-xover", "after-doXover", x, ef.SuccessReturns(),
+				ef.CallGuard(PassFwd, procT+".validateHopExpiry"), ef.CallGuard(PassFwd, procT+".verifyCurrentMAC"))
+		}
 	}
+	c.Min("process:calls-doXover", nXo, 1)
 	c01MacCompare(c)
 	if only == "C04" {
 		c01MacInput(c)
